@@ -80,9 +80,14 @@ impl<S: Read + Write> Client<S> {
     /// ```
     pub fn write<T: 'static>(&mut self, message: T) -> RdpResult<()>
     where T: Message {
+        let length = message.length();
+        // the TPKT length field is 16 bits wide and counts the 4 bytes header
+        if length > 0xFFFF - 4 {
+            return Err(Error::RdpError(RdpError::new(RdpErrorKind::InvalidSize, "Message too large for a TPKT frame")))
+        }
         self.transport.write(
             &trame![
-                tpkt_header(message.length() as u16),
+                tpkt_header(length as u16),
                 message
             ]
         )
